@@ -17,7 +17,7 @@ def run(out, tier, seed):
     cases = []
     for t in r.tagged("HIST"):
         meth = rng.choice(["meth", "meth", "other", "deco", "deco2", "tree"])
-        path = rng.choice(["direct", "direct", "dotted", "selfcap", "selfalias", "nested", "nested_ctx"])
+        path = rng.choice(["direct", "direct", "dotted", "selfcap", "selfalias", "selffocus", "nested", "nested_ctx"])
         cases.append({"id": len(cases), "src": "tlc-exhaustive", "target": t[1], "calls": list(t[2]), "method": meth, "path": path,
                       "via": [rng.random() < 0.8 for _ in t[2]]})
     for s, w in sigs.items():
@@ -27,7 +27,7 @@ def run(out, tier, seed):
         calls = [rng.choice(objs) for _ in range(rng.randint(1, 5))]
         cases.append({"id": len(cases), "src": "random", "target": rng.choice(objs + ["K", "Sub", "E", "U"]), "calls": calls,
                       "method": rng.choice(["meth", "other", "deco", "deco2", "tree", "tree"]),
-                      "path": rng.choice(["direct", "dotted", "selfcap", "selfalias", "nested", "nested_ctx"]),
+                      "path": rng.choice(["direct", "dotted", "selfcap", "selfalias", "selffocus", "nested", "nested_ctx"]),
                       "via": [rng.random() < 0.8 for _ in calls]})
     for cls in ["K", "Sub", "E", "U"]:
         cases.append({"id": len(cases), "src": "property", "target": cls, "calls": objs, "method": "prop", "path": "direct"})
